@@ -152,37 +152,46 @@ func proofFrom(tp *simkit.Tape, t mTask, m *rtMeta) metadb.ChannelMigrationCutov
 	return p
 }
 
-// act draws the next command of executor e for channel ch at time now.
-func (e *executor) act(tp *simkit.Tape, ch chanRef, now int64, cfg migGenCfg) migCmd {
+// act draws the next command of executor e for channel ch at time now; ok is
+// false when the executor, like the real one, leaves a task alone that another
+// node owns under an unexpired lease.
+func (e *executor) act(tp *simkit.Tape, ch chanRef, now int64, cfg migGenCfg) (migCmd, bool) {
 	v := e.views[ch.id]
 	if v.task == nil || terminal(*v.task) {
 		if tp.Chance(1, 10) {
-			return e.gcCmd(tp, ch, now)
+			return e.gcCmd(tp, ch, now), true
 		}
-		return e.createCmd(tp, ch, v, now, cfg)
+		return e.createCmd(tp, ch, v, now, cfg), true
 	}
 	t := *v.task
-	// what the real executor loop would do first
-	if t.OwnerNodeID != e.node || t.OwnerLeaseUntilMS <= now || t.Status == stBlocked || t.Status == stPending {
-		if tp.Weighted([]int{6, 2}) == 0 {
-			return e.claimCmd(tp, ch, t, now, cfg)
+	// what the real executor loop does first
+	if t.OwnerNodeID != e.node {
+		if t.OwnerNodeID != 0 && t.OwnerLeaseUntilMS > now && !tp.Chance(1, 8) {
+			return migCmd{}, false
+		}
+		if !tp.Chance(1, 8) {
+			return e.claimCmd(tp, ch, t, now, cfg), true
+		}
+	} else if t.OwnerLeaseUntilMS <= now || t.Status == stBlocked || t.Status == stPending {
+		if !tp.Chance(1, 8) {
+			return e.claimCmd(tp, ch, t, now, cfg), true
 		}
 	}
-	switch tp.Weighted([]int{12, 2, 2, 2, 1, 1, 1}) {
+	switch tp.Weighted([]int{24, 1, 2, 2, 2, 1, 1}) {
 	case 0:
-		return e.workflowCmd(tp, ch, t, v.meta, now, cfg)
+		return e.workflowCmd(tp, ch, t, v.meta, now, cfg), true
 	case 1:
-		return e.abortCmd(ch, t, v.meta, now)
+		return e.abortCmd(ch, t, v.meta, now), true
 	case 2:
-		return e.resetCmd(tp, ch, t, v.meta, now)
+		return e.resetCmd(tp, ch, t, v.meta, now), true
 	case 3: // renew the fence (or try to take one early)
-		return e.setFenceCmd(tp, ch, t, v.meta, now, cfg, true)
+		return e.setFenceCmd(tp, ch, t, v.meta, now, cfg, true), true
 	case 4:
-		return e.outOfOrderCmd(tp, ch, t, v.meta, now, cfg)
+		return e.outOfOrderCmd(tp, ch, t, v.meta, now, cfg), true
 	case 5:
-		return e.gcCmd(tp, ch, now)
+		return e.gcCmd(tp, ch, now), true
 	default:
-		return e.advanceCmd(tp, ch, t, v.meta, now, t.Phase, stBlocked, false, false)
+		return e.advanceCmd(tp, ch, t, v.meta, now, t.Phase, stBlocked, false, false), true
 	}
 }
 
